@@ -6,7 +6,7 @@
 (* and every gate is monotone (or antitone) in the version.  Checked by the *)
 (* TLA+ proof system (tlapm, SMT back end).                                 *)
 (***************************************************************************)
-EXTENDS VersionGates, TLAPS
+EXTENDS VersionGates
 
 Vers == Nat \X Nat \X Nat
 
